@@ -183,6 +183,28 @@ where
     if e1 != e2 && !unc_pkh {
         return fail("ext-differs", format!("extra data after round trip {:?} != {:?}", e1, e2));
     }
+    // the decoded value with its key hashes substituted back is still the same script
+    {
+        use miniscript::ToPublicKey;
+        let mut map = std::collections::BTreeMap::new();
+        for k in ms.iter_pk() {
+            map.insert(k.to_pubkeyhash(C::sig_type()), k);
+        }
+        for (how, m) in [("keys", &map), ("empty", &std::collections::BTreeMap::new())] {
+            let sub = back.substitute_raw_pkh(m);
+            if sub.encode() != s {
+                return fail(
+                    &format!("substitute-changes-script/{}", first_diff_frag(node)),
+                    format!("decode(S).substitute_raw_pkh({}).encode() = {} != S = {}", how, sub.encode().to_hex_string(), s.to_hex_string()),
+                );
+            }
+            if sub.ty != back.ty {
+                return fail("substitute-changes-type", format!("type after substitute_raw_pkh({}) {:?} != {:?}", how, sub.ty, back.ty));
+            }
+        }
+    }
+    // the interpreter is a decoder too: the script it reads from a spending input is this script
+    interpreter_decodes(&s, ctx, rep)?;
     let m1 = normalise(&ast::from_lib(&back), ctx);
     let m0 = normalise(node, ctx);
     if m1 != m0 {
@@ -192,6 +214,67 @@ where
         );
     }
     Ok(true)
+}
+
+/// `Interpreter::from_txdata` on an input that reveals `script` (p2wsh, p2sh-p2wsh, p2sh, or a
+/// taproot leaf under a fixed internal key): the explicit script of the inferred descriptor must
+/// be `script` again.  Only the decoding is exercised (nothing is executed).
+fn interpreter_decodes(script: &bitcoin::ScriptBuf, ctx: Ctx, rep: &mut Report) -> Result<(), Failure> {
+    use bitcoin::hashes::Hash;
+    use crate::mdesc::{p2sh_spk, p2wsh_spk, single_push};
+    let sb = script.as_bytes().to_vec();
+    let mut variants: Vec<(&str, Vec<u8>, Vec<u8>, Vec<Vec<u8>>)> = Vec::new(); // (name, spk, scriptSig, witness)
+    match ctx {
+        Ctx::Segwitv0 => {
+            let prog = p2wsh_spk(&sb);
+            variants.push(("wsh", prog.clone(), vec![], vec![sb.clone()]));
+            variants.push(("sh-wsh", p2sh_spk(&prog), single_push(&prog), vec![sb.clone()]));
+        }
+        Ctx::Legacy => {
+            if sb.len() <= 520 {
+                variants.push(("sh", p2sh_spk(&sb), single_push(&sb), vec![]));
+            }
+        }
+        Ctx::Tap => {
+            let ik = crate::mirror::encode::key_bytes(&keys::key_xonly(1), Ctx::Tap).map_err(|e| Failure { sig: "key".into(), msg: e })?;
+            let mut ik32 = [0u8; 32];
+            ik32.copy_from_slice(&ik);
+            let lh = crate::bip341::tapleaf_hash(0xc0, &sb);
+            if let Some((q, parity)) = crate::bip341::output_key(&ik32, Some(&lh)) {
+                let mut spk = vec![0x51, 32];
+                spk.extend_from_slice(&q);
+                let mut cb = vec![0xc0 | parity];
+                cb.extend_from_slice(&ik32);
+                variants.push(("tr-leaf", spk, vec![], vec![sb.clone(), cb]));
+            }
+        }
+        Ctx::Bare => {}
+    }
+    for (name, spk, ssig, wit) in variants {
+        let spk = bitcoin::ScriptBuf::from_bytes(spk);
+        let ssig = bitcoin::ScriptBuf::from_bytes(ssig);
+        let w = bitcoin::Witness::from_slice(&wit);
+        match miniscript::interpreter::Interpreter::from_txdata(&spk, &ssig, &w, bitcoin::Sequence::MAX, bitcoin::absolute::LockTime::ZERO) {
+            Ok(i) => match i.inferred_descriptor() {
+                Ok(d) => {
+                    let got = match &d {
+                        miniscript::Descriptor::Tr(t) => t.leaves().next().map(|l| l.compute_script()),
+                        _ => d.explicit_script().ok(),
+                    };
+                    if got.as_ref() != Some(script) {
+                        return fail(&format!("interpreter-decodes-other-script/{}", name), format!("the interpreter read {:?} from an input revealing {}", got.map(|g| g.to_hex_string()), script.to_hex_string()));
+                    }
+                    rep.class(format!("interpreter:{}:ok", name));
+                }
+                Err(_) => rep.class(format!("interpreter:{}:no-descriptor", name)),
+            },
+            Err(e) => {
+                return fail(&format!("interpreter-rejects-script/{}", name), format!("Interpreter::from_txdata cannot read the consensus-valid script {} ({}): {}", script.to_hex_string(), name, e));
+            }
+        }
+        let _ = bitcoin::hashes::sha256::Hash::all_zeros();
+    }
+    Ok(())
 }
 
 fn first_diff_frag(n: &Node) -> String { crate::checks::c02::frag_signature(&crate::mdesc::MDesc::Wsh(n.clone())) }
